@@ -18,14 +18,14 @@ CONSTANTS
  DevJoinOkEarly = FALSE
  DevAssignAllMembers = FALSE
  DevRestoreDropsAsg = FALSE
- DevRestoreGenZero = TRUE
+ DevRestoreGenZero = FALSE
  DevExpireIgnoresHb = FALSE
  DevNoLaggerDrop = FALSE
  DevNoExpire = FALSE
  DevLaggerSkippedOnExpiry = FALSE
  DevSyncRefusesIdle = FALSE
  DevHbWriteUnlocked = FALSE
- DevCleanupWriteUnlocked = FALSE
+ DevCleanupWriteUnlocked = TRUE
  DevSyncLookupUnlocked = FALSE
 INIT Init
 NEXT Next
